@@ -809,7 +809,9 @@ ProcDecl:
 ProcBody:
         ProcLocalDeclList States LocFlags Init Transitions
 	| ProcLocalDeclList States Branchpoints LocFlags Init Transitions
-	| /* empty */
+	| /* empty */ {
+          CALL(@$, @$, handle_error(TypeException{"$Missing_initial_location"}));
+        }
         ;
 
 ProcLocalDeclList:
